@@ -223,6 +223,52 @@ def encodeFloat (core : St → CoreArgs → Pkt) (st : St) (stDepth channels fra
             lsbDepth := min 24 stDepth, sig := pcm.map float2Sig, analysisSize := pcm.length / channels,
             c1 := 0, c2 := -2, analysisChannels := channels, floatApi := 1 }
 
+/-! #### multistream: `opus_multistream_encode` / `_encode24` / `_encode_float` → `opus_multistream_encode_native`
+   → per stream `opus_encode_native(enc, buf, frame_size, …, lsb_depth, pcm, analysis_frame_size, c1, c2,
+   st->layout.nb_channels, downmix, float_api)` (src/opus_multistream_encoder.c:930-988, 1071-1106).  `buf` holds the
+   stream's one or two channels gathered from the caller's interleaved buffer by `opus_copy_channel_in_short / _int24 /
+   _float` (`INT16TORES` / `INT24TORES` / `FLOAT2RES`); the analysis reads the caller's buffer through
+   `downmix_int / _int24 / _float` with `c1` = left (or the mono channel) and `c2` = right (or -1):
+   `y[j] = SIG(x[j*C+c1]); if (c2>-1) y[j] += SIG(x[j*C+c2]);` (src/opus_encoder.c:698-766).  The entry depth is
+   16 / 24 / 24 and `float_api` 0 / 0 / 1. -/
+
+/-- first input channel mapped to stream channel `v` (`get_left_channel` / `get_right_channel` /
+    `get_mono_channel` with `prev = -1`, src/opus_multistream.c) -/
+def findChan (mapping : List Nat) (v : Nat) : Option Nat :=
+  let i := mapping.findIdx (· == v)
+  if i < mapping.length then some i else none
+
+/-- argument tuple of one stream; `CoreArgs.sig` here is the down-mixed analysis signal (one value per frame) -/
+def msStreamArgs {α : Type} (toRes toSig : α → Nat) (dflt : α) (entryDepth fapi stDepth C c1 : Nat) (c2 : Option Nat)
+    (pcm : List α) : CoreArgs :=
+  let frames := pcm.length / C
+  let at_ := fun (j ch : Nat) => pcm.getD (j * C + ch) dflt
+  { res := (List.range frames).flatMap fun j =>
+      match c2 with
+      | some r => [toRes (at_ j c1), toRes (at_ j r)]
+      | none => [toRes (at_ j c1)],
+    frameSize := frames, lsbDepth := min entryDepth stDepth,
+    sig := (List.range frames).map fun j =>
+      match c2 with
+      | some r => fadd (toSig (at_ j c1)) (toSig (at_ j r))
+      | none => toSig (at_ j c1),
+    analysisSize := frames, c1 := c1, c2 := match c2 with | some r => (r : Int) | none => -1,
+    analysisChannels := C, floatApi := fapi }
+
+/-- all streams of one multistream call (`none`: the layout does not feed some stream channel; creation
+    refuses such layouts) -/
+def msArgs {α : Type} (toRes toSig : α → Nat) (dflt : α) (entryDepth fapi stDepth C streams coupled : Nat)
+    (mapping : List Nat) (pcm : List α) : Option (List CoreArgs) :=
+  (List.range streams).mapM fun s =>
+    if s < coupled then
+      match findChan mapping (2 * s), findChan mapping (2 * s + 1) with
+      | some l, some r => some (msStreamArgs toRes toSig dflt entryDepth fapi stDepth C l (some r) pcm)
+      | _, _ => none
+    else
+      match findChan mapping (s + coupled) with
+      | some m => some (msStreamArgs toRes toSig dflt entryDepth fapi stDepth C m none pcm)
+      | none => none
+
 /-- The guard in front of the conversion: `frame_size_select` answered `-1` (or 0) → `OPUS_BAD_ARG`, the
     core is not reached (`opus_encode`, `opus_encode24`) or refuses as its first action (`opus_encode_float`). -/
 def entryArgs (args : Nat → CoreArgs) (frameSizeSelect : Int) : Option CoreArgs :=
